@@ -412,6 +412,8 @@ def main(argv=None):
             undecided.append(f"{r['function']}: {r['status']}: {r['message'][:300]}")
         for oid, d in r["obligations"].items():
             d["function"] = r["function"]
+            if d.get("props") and prop not in d["props"]:
+                continue        # obligation of a callee contract that serves other properties
             obligations[oid] = d
     for lr in lemma_results:
         for oid, d in lr["obligations"].items():
